@@ -111,7 +111,11 @@ Definition cap_ok (cap : nat) : Prop := (1 <= cap)%nat /\ N.of_nat cap < 65536.
 Definition piece_ok (cap : nat) (p : bytes) : Prop := (1 <= length p <= cap)%nat.
 
 Lemma piece_max_ok : cap_ok piece_max.
-Proof. unfold cap_ok, piece_max, piece_max_N. rewrite N2Nat.id. split; lia. Qed.
+Proof.
+  unfold cap_ok, piece_max. rewrite N2Nat.id.
+  assert (H : (1 <=? piece_max_N) && (piece_max_N <? 65536) = true) by (vm_compute; reflexivity).
+  apply andb_true_iff in H as [H1 H2]. apply N.leb_le in H1. apply N.ltb_lt in H2. split; lia.
+Qed.
 
 Lemma chunk_shape cap p : cap_ok cap -> piece_ok cap p ->
   chunk_of p = size_line (N.of_nat (length p)) ++ 13 :: 10 :: p ++ [13; 10] /\
